@@ -76,6 +76,9 @@ var byteAlpha = []string{"{", "}", "[", "]", ":", ",", "\"", "a", "1", "-", "#",
 type baseDoc struct {
 	Name string
 	Doc  *docmodel.Node
+	// Invalid: the document is refused as it stands, so a diagnostic cannot be attributed to the
+	// mutation: only totality and "inside the document" are judged for its mutants
+	Invalid bool
 }
 
 func loadBases(repo string, thorough bool) []baseDoc {
@@ -93,16 +96,21 @@ func loadBases(repo string, thorough bool) []baseDoc {
 	}
 	var out []baseDoc
 	if d, err := docmodel.Parse([]byte(grammar.CustomSpec)); err == nil {
-		out = append(out, baseDoc{"custom-unmarshalers (internal/grammar)", d})
+		out = append(out, baseDoc{Name: "custom-unmarshalers (internal/grammar)", Doc: d})
+	}
+	for i, text := range grammar.RecursiveOddities {
+		if d, err := docmodel.Parse([]byte(text)); err == nil {
+			out = append(out, baseDoc{Name: fmt.Sprintf("recursive oddity %d (internal/grammar)", i+1), Doc: d, Invalid: i == 1})
+		}
 	}
 	if d, err := docmodel.Parse([]byte(grammar.RecursiveDefaultsSpec)); err == nil {
-		out = append(out, baseDoc{"recursive schemas in default responses (internal/grammar)", d})
+		out = append(out, baseDoc{Name: "recursive schemas in default responses (internal/grammar)", Doc: d})
 	}
 	if d, err := docmodel.Parse([]byte(grammar.RefsSpec)); err == nil {
-		out = append(out, baseDoc{"every component kind reached through references (internal/grammar)", d})
+		out = append(out, baseDoc{Name: "every component kind reached through references (internal/grammar)", Doc: d})
 	}
 	if d, err := docmodel.Parse([]byte(grammar.ShapesSpec)); err == nil {
-		out = append(out, baseDoc{"order-sensitive shapes (internal/grammar)", d})
+		out = append(out, baseDoc{Name: "order-sensitive shapes (internal/grammar)", Doc: d})
 	}
 	for _, f := range files {
 		data, err := os.ReadFile(filepath.Join(repo, f))
@@ -113,7 +121,7 @@ func loadBases(repo string, thorough bool) []baseDoc {
 		if err != nil {
 			continue
 		}
-		out = append(out, baseDoc{f, d})
+		out = append(out, baseDoc{Name: f, Doc: d})
 	}
 	return out
 }
@@ -592,7 +600,7 @@ func runJob(j job, bases []baseDoc, muts []docmodel.Mutation) result {
 		if res.Relation == "elsewhere" {
 			res.Relation = relaxed(ix, bases[j.Base].Doc, s.Path, res)
 		}
-		if !m.InPlace && res.Relation != "outside-the-document" {
+		if (!m.InPlace || bases[j.Base].Invalid) && res.Relation != "outside-the-document" {
 			res.Relation = "not-judged(" + res.Relation + ")"
 		}
 	}
